@@ -22,6 +22,9 @@ type c05Case struct {
 	OnlyEnd  string
 	OnlyK    int
 	OnlyKind string
+	// HoldPoints: goroutines parked at scheduling points are not released before the fault has fired
+	// (unless nothing else can move), so that the fault lands while they are inside their window.
+	HoldPoints bool
 }
 
 // conn_close: the connection (client end) or the serving context (server end) is closed locally by
@@ -78,6 +81,7 @@ func genC05(t *rapid.T) c05Case {
 		c.Cfg.Points = rapid.SliceOfNDistinct(rapid.SampledFrom([]string{"harness.Unmarshal.holding", "stream.rawWrite.beforeFrame", "stream.MsgSend.beforeFlush",
 			"manager.manageReader.beforeDispatch", "manager.terminate.beforeClose", "stream.checkFinished"}), 1, 2, func(s string) string { return s }).Draw(t, "pts")
 		c.Cfg.PointLimit = 6
+		c.HoldPoints = rapid.Bool().Draw(t, "holdpoints")
 	}
 	c.Choices = genChoices(t, 150)
 	if pbt.Thorough() {
@@ -156,8 +160,15 @@ func runWorkload(c c05Case, end string, f *sim.Fault) (out c05Run) {
 			if w.Done(name) && len(w.InCall(name+".")) == 0 {
 				break
 			}
-			if _, ok := w.Step(take(&choices), sim.Filter{}); !ok {
-				break
+			ch := take(&choices)
+			hold := c.HoldPoints && faulted != nil && !faulted.FaultFired()
+			if _, ok := w.Step(ch, sim.Filter{NoRelease: hold}); !ok {
+				if !hold {
+					break
+				}
+				if _, ok := w.Step(ch, sim.Filter{}); !ok {
+					break
+				}
 			}
 			steps++
 		}
